@@ -1,359 +1,31 @@
 package reader
 
-// Source catalog model shared by the C13 / C15 harnesses: a catalog is produced by a *history* of
-// legal root-coord operations (so impossible catalogs cannot raise alarms) and written into fakeetcd
-// with the key layout and value encodings Milvus uses.
+// The source catalog model lives in kit/srccat (shared with the server harnesses).
 
 import (
-	"encoding/binary"
-	"fmt"
-	"time"
-
-	"github.com/milvus-io/milvus-proto/go-api/v2/commonpb"
-	"github.com/milvus-io/milvus-proto/go-api/v2/schemapb"
 	"github.com/milvus-io/milvus/pkg/util/conc"
-	"github.com/milvus-io/milvus/pkg/util/tsoutil"
-	"google.golang.org/protobuf/proto"
 
 	"github.com/zilliztech/milvus-cdc/core/api"
-	"github.com/zilliztech/milvus-cdc/core/pb"
 	"github.com/zilliztech/milvus-cdc/core/util"
 	"github.com/zilliztech/milvus-cdc/core/verifkit/fakeetcd"
+	"github.com/zilliztech/milvus-cdc/core/verifkit/srccat"
+)
+
+type (
+	catalog = srccat.Catalog
+	catOp   = srccat.Op
+	catColl = srccat.Coll
+	catPart = srccat.Part
+	catDB   = srccat.DB
 )
 
 const (
-	catRoot = "by-dev"
-	catMeta = "meta"
+	catRoot = srccat.Root
+	catMeta = srccat.Meta
 )
 
-type catColl struct {
-	ID, DB   int64
-	Name     string
-	State    string // creating | created | dropping | dropped | tombstone
-	CreateTs uint64
-	Shards   int
-}
-
-type catPart struct {
-	ID, Coll int64
-	Name     string
-	State    string
-	CreateTs uint64
-}
-
-type catDB struct {
-	ID    int64
-	Name  string
-	State string // live | tombstone
-}
-
-type catalog struct {
-	DBs    []*catDB
-	Colls  []*catColl
-	Parts  []*catPart
-	NowMs  int64 // source clock in ms; every op advances it
-	nextID int64
-}
-
-type catOp struct {
-	Kind string `json:"k"`
-	DB   int64  `json:"db,omitempty"`
-	Name string `json:"n,omitempty"`
-}
-
-func (o catOp) String() string { return fmt.Sprintf("%s(%d,%s)", o.Kind, o.DB, o.Name) }
-
-func newCatalog() *catalog {
-	return &catalog{DBs: []*catDB{{ID: 1, Name: "default", State: "live"}}, NowMs: 1000, nextID: 100}
-}
-
-func (c *catalog) ts() uint64 { return tsoutil.ComposeTS(c.NowMs, 0) }
-
-func (c *catalog) db(id int64) *catDB {
-	for _, d := range c.DBs {
-		if d.ID == id {
-			return d
-		}
-	}
-	return nil
-}
-
-// live (created or creating) incarnation of a collection name in a db
-func (c *catalog) liveColl(db int64, name string) *catColl {
-	for _, x := range c.Colls {
-		if x.DB == db && x.Name == name && (x.State == "created" || x.State == "creating") {
-			return x
-		}
-	}
-	return nil
-}
-
-func (c *catalog) newestColl(db int64, name string, states ...string) *catColl {
-	var best *catColl
-	for _, x := range c.Colls {
-		if x.DB != db || x.Name != name {
-			continue
-		}
-		for _, s := range states {
-			if x.State == s {
-				best = x
-			}
-		}
-	}
-	return best
-}
-
-func (c *catalog) livePart(coll int64, name string) *catPart {
-	for _, p := range c.Parts {
-		if p.Coll == coll && p.Name == name && (p.State == "created" || p.State == "creating") {
-			return p
-		}
-	}
-	return nil
-}
-
-// apply executes one op if it is legal in the current catalog; returns false otherwise.
-func (c *catalog) apply(o catOp) bool {
-	c.NowMs += 10
-	d := c.db(o.DB)
-	switch o.Kind {
-	case "createDB":
-		if d != nil && d.State == "live" {
-			return false
-		}
-		c.nextID++
-		c.DBs = append(c.DBs, &catDB{ID: c.nextID, Name: o.Name, State: "live"})
-		return true
-	case "dropDB": // only an empty database can be dropped
-		if d == nil || d.State != "live" || d.ID == 1 {
-			return false
-		}
-		for _, x := range c.Colls {
-			if x.DB == d.ID && (x.State == "created" || x.State == "creating") {
-				return false
-			}
-		}
-		d.State = "tombstone"
-		return true
-	}
-	if d == nil || d.State != "live" {
-		// collections of a dropped database can still be garbage collected
-		if o.Kind != "gcColl" {
-			return false
-		}
-	}
-	switch o.Kind {
-	case "createColl", "beginCreateColl":
-		if c.liveColl(o.DB, o.Name) != nil {
-			return false
-		}
-		c.nextID++
-		st := "created"
-		if o.Kind == "beginCreateColl" {
-			st = "creating"
-		}
-		c.Colls = append(c.Colls, &catColl{ID: c.nextID, DB: o.DB, Name: o.Name, State: st, CreateTs: c.ts(), Shards: 1})
-		return true
-	case "finishCreateColl":
-		x := c.newestColl(o.DB, o.Name, "creating")
-		if x == nil {
-			return false
-		}
-		x.State = "created"
-		return true
-	case "abortCreateColl": // creating -> tombstone
-		x := c.newestColl(o.DB, o.Name, "creating")
-		if x == nil {
-			return false
-		}
-		x.State = "tombstone"
-		return true
-	case "dropColl": // created -> dropping
-		x := c.newestColl(o.DB, o.Name, "created")
-		if x == nil {
-			return false
-		}
-		x.State = "dropping"
-		return true
-	case "droppedColl": // dropping -> dropped
-		x := c.newestColl(o.DB, o.Name, "dropping")
-		if x == nil {
-			return false
-		}
-		x.State = "dropped"
-		return true
-	case "gcColl": // dropping/dropped -> tombstone (its partitions too)
-		x := c.newestColl(o.DB, o.Name, "dropping", "dropped")
-		if x == nil {
-			return false
-		}
-		x.State = "tombstone"
-		for _, p := range c.Parts {
-			if p.Coll == x.ID {
-				p.State = "tombstone"
-			}
-		}
-		return true
-	case "createPart":
-		x := c.newestColl(o.DB, o.Name, "created")
-		if x == nil || c.livePart(x.ID, "p") != nil {
-			return false
-		}
-		c.nextID++
-		c.Parts = append(c.Parts, &catPart{ID: c.nextID, Coll: x.ID, Name: "p", State: "created", CreateTs: c.ts()})
-		return true
-	case "dropPart":
-		x := c.newestColl(o.DB, o.Name, "created")
-		if x == nil {
-			return false
-		}
-		p := c.livePart(x.ID, "p")
-		if p == nil {
-			return false
-		}
-		p.State = "dropped"
-		return true
-	case "gcPart":
-		x := c.newestColl(o.DB, o.Name, "created")
-		if x == nil {
-			return false
-		}
-		for _, p := range c.Parts {
-			if p.Coll == x.ID && p.State == "dropped" {
-				p.State = "tombstone"
-				return true
-			}
-		}
-		return false
-	}
-	return false
-}
-
-func catBuild(hist []catOp) (*catalog, bool) {
-	c := newCatalog()
-	for _, o := range hist {
-		if !c.apply(o) {
-			return nil, false
-		}
-	}
-	return c, true
-}
-
-// canon: catalog content without ids/timestamps (ids and clocks are assigned deterministically from the history,
-// but two histories with the same shape and different lengths differ only in absolute values)
-func (c *catalog) canon() string {
-	s := ""
-	for _, d := range c.DBs {
-		s += fmt.Sprintf("D%d:%s:%s;", d.ID, d.Name, d.State)
-	}
-	for _, x := range c.Colls {
-		s += fmt.Sprintf("C%d@%d:%s:%s:%d;", x.ID, x.DB, x.Name, x.State, x.CreateTs)
-	}
-	for _, p := range c.Parts {
-		s += fmt.Sprintf("P%d@%d:%s:%s:%d;", p.ID, p.Coll, p.Name, p.State, p.CreateTs)
-	}
-	return s
-}
-
-var catTombstone = []byte{0xE2, 0x9B, 0xBC}
-
-func catCollState(s string) pb.CollectionState {
-	return map[string]pb.CollectionState{"created": pb.CollectionState_CollectionCreated, "creating": pb.CollectionState_CollectionCreating,
-		"dropping": pb.CollectionState_CollectionDropping, "dropped": pb.CollectionState_CollectionDropped}[s]
-}
-
-func catPartState(s string) pb.PartitionState {
-	return map[string]pb.PartitionState{"created": pb.PartitionState_PartitionCreated, "creating": pb.PartitionState_PartitionCreating,
-		"dropping": pb.PartitionState_PartitionDropping, "dropped": pb.PartitionState_PartitionDropped}[s]
-}
-
-func catDBKey(id int64) string {
-	return fmt.Sprintf("%s/%s/%s/%d", catRoot, catMeta, databasePrefix, id)
-}
-func catCollKey(db, id int64) string {
-	return fmt.Sprintf("%s/%s/%s/%d/%d", catRoot, catMeta, collectionPrefix, db, id)
-}
-func catPartKey(coll, id int64) string {
-	return fmt.Sprintf("%s/%s/%s/%d/%d", catRoot, catMeta, partitionPrefix, coll, id)
-}
-func catFieldKey(coll, id int64) string {
-	return fmt.Sprintf("%s/%s/%s/%d/%d", catRoot, catMeta, fieldPrefix, coll, id)
-}
-
-func (x *catColl) vchannels() ([]string, []string) {
-	var v, p []string
-	for i := 0; i < x.Shards; i++ {
-		pc := fmt.Sprintf("src-dml_%d", i)
-		p = append(p, pc)
-		v = append(v, fmt.Sprintf("%s_%dv%d", pc, x.ID, i))
-	}
-	return v, p
-}
-
-func (x *catColl) info() *pb.CollectionInfo {
-	v, p := x.vchannels()
-	var sp []*commonpb.KeyDataPair
-	for _, pc := range p {
-		sp = append(sp, &commonpb.KeyDataPair{Key: pc, Data: []byte("start-" + pc)})
-	}
-	return &pb.CollectionInfo{ID: x.ID, DbId: x.DB, CreateTime: x.CreateTs, State: catCollState(x.State), ShardsNum: int32(x.Shards),
-		Schema: &schemapb.CollectionSchema{Name: x.Name}, VirtualChannelNames: v, PhysicalChannelNames: p, StartPositions: sp}
-}
-
-func (p *catPart) info() *pb.PartitionInfo {
-	return &pb.PartitionInfo{PartitionID: p.ID, PartitionName: p.Name, CollectionId: p.Coll, PartitionCreatedTimestamp: p.CreateTs, State: catPartState(p.State)}
-}
-
-func mustMarshal(m proto.Message) []byte {
-	b, err := proto.Marshal(m)
-	if err != nil {
-		panic(err)
-	}
-	return b
-}
-
-// write stores the whole catalog into fe (raw, no hooks, no ordering significance).
-func (c *catalog) write(fe *fakeetcd.Fake) {
-	for _, d := range c.DBs {
-		if d.State == "tombstone" {
-			fe.PutRaw(catDBKey(d.ID), catTombstone)
-		} else {
-			fe.PutRaw(catDBKey(d.ID), mustMarshal(&pb.DatabaseInfo{Id: d.ID, Name: d.Name, State: pb.DatabaseState_DatabaseCreated}))
-		}
-	}
-	for _, x := range c.Colls {
-		c.writeColl(fe, x)
-	}
-	for _, p := range c.Parts {
-		c.writePart(fe, p)
-	}
-	c.writeTSO(fe)
-}
-
-func (c *catalog) writeColl(fe *fakeetcd.Fake, x *catColl) {
-	if x.State == "tombstone" {
-		fe.PutRaw(catCollKey(x.DB, x.ID), catTombstone)
-		return
-	}
-	fe.PutRaw(catFieldKey(x.ID, 100), mustMarshal(&schemapb.FieldSchema{FieldID: 100, Name: "pk", IsPrimaryKey: true, DataType: schemapb.DataType_Int64}))
-	fe.PutRaw(catCollKey(x.DB, x.ID), mustMarshal(x.info()))
-}
-
-func (c *catalog) writePart(fe *fakeetcd.Fake, p *catPart) {
-	if p.State == "tombstone" {
-		fe.PutRaw(catPartKey(p.Coll, p.ID), catTombstone)
-		return
-	}
-	fe.PutRaw(catPartKey(p.Coll, p.ID), mustMarshal(p.info()))
-}
-
-func (c *catalog) writeTSO(fe *fakeetcd.Fake) {
-	b := make([]byte, 8)
-	binary.BigEndian.PutUint64(b, uint64(time.UnixMilli(c.NowMs+5).UnixNano()))
-	fe.PutRaw(fmt.Sprintf("%s/%s", catRoot, tsPrefix), b)
-}
-
-func (c *catalog) nowTT() uint64 { return tsoutil.ComposeTSByTime(time.UnixMilli(c.NowMs+5), 0) }
+func newCatalog() *catalog                      { return srccat.New() }
+func catBuild(hist []catOp) (*catalog, bool)    { return srccat.Build(hist) }
 
 // newVerifEtcdOp builds the real EtcdOp white-box around a fake etcd client (NewEtcdOp dials a server).
 func newVerifEtcdOp(fe *fakeetcd.Fake, target api.TargetAPI) *EtcdOp {
